@@ -43,6 +43,10 @@ class SessionCache(object):
         # Maps sessionIDs to sessions
         self.entriesDict = {}
 
+        # Maps sessionIDs to the number of entries in entriesList that
+        # refer to them (an ID can be stored more than once)
+        self.entriesCount = {}
+
         #Circular list of (sessionID, timestamp) pairs
         self.entriesList = [(None,None)] * maxEntries
 
@@ -74,16 +78,26 @@ class SessionCache(object):
         try:
             #Add the new element
             self.entriesDict[bytes(sessionID)] = session
+            self.entriesCount[bytes(sessionID)] = \
+                self.entriesCount.get(bytes(sessionID), 0) + 1
             self.entriesList[self.lastIndex] = (bytes(sessionID), time.time())
             self.lastIndex = (self.lastIndex+1) % len(self.entriesList)
 
             #If the cache is full, we delete the oldest element to make an
             #empty space
             if self.lastIndex == self.firstIndex:
-                del(self.entriesDict[self.entriesList[self.firstIndex][0]])
+                self._remove(self.entriesList[self.firstIndex][0])
                 self.firstIndex = (self.firstIndex+1) % len(self.entriesList)
         finally:
             self.lock.release()
+
+    #Drop one list entry of sessionID; the session itself goes only with the
+    #last (newest) list entry that refers to it
+    def _remove(self, sessionID):
+        self.entriesCount[sessionID] -= 1
+        if not self.entriesCount[sessionID]:
+            del(self.entriesCount[sessionID])
+            del(self.entriesDict[sessionID])
 
     #Delete expired items
     def _purge(self):
@@ -96,7 +110,7 @@ class SessionCache(object):
         index = self.firstIndex
         while index != self.lastIndex:
             if currentTime - self.entriesList[index][1] > self.maxAge:
-                del(self.entriesDict[self.entriesList[index][0]])
+                self._remove(self.entriesList[index][0])
                 index = (index+1) % len(self.entriesList)
             else:
                 break
